@@ -23,7 +23,7 @@ TAttempt == IsEvent("cl.attempt") /\ Attempt /\ Matches
 TAdd == IsEvent("cl.add") /\ Add /\ Matches
 TTail == IsEvent("cl.tail") /\ (\E a \in BOOLEAN : Tail(a)) /\ Matches
 TReset == IsEvent("reset") /\ closed' = FALSE /\ connected' = FALSE /\ disconnected' = TRUE /\ connecting' = Auto
-          /\ listed' = 0 /\ live' = 0 /\ attempt' = 0
+          /\ listed' = 0 /\ live' = 0 /\ attempt' = 0 /\ orphans' = 0
 \* a listed connection dies between two reported states (not under the client mutex)
 TDie == l <= Len(TraceLog) /\ Die /\ UNCHANGED l
 
